@@ -139,10 +139,11 @@ MUTANTS = [
        'R-C12-dispatch'),
     _m('port-gen-packed-element-as-vector', YS2, "    if not n_dim:\n      return s.dtype_gen( d, id_, dtype )", "    if not n_dim:\n      return s.vector_gen( d, id_, dtype )", 'R-C12-dispatch'),
     _m('wire-struct-field-as-vector', YS2, '      ret += s.wire_dtype_gen( id_+"__"+name, field, n_dim )', '      ret += s.wire_vector_gen( id_+"__"+name, field, n_dim )', 'R-C12-dispatch'),
-    # re-introductions of the chained-assignment defect on a tree that carries the repair (stale otherwise)
+    # re-introductions of the chained-assignment defect
     _m('chain-copy-reevaluates-rhs', VB1, "    source = targets[-1] if node.blocking else value\n", "    source = value\n", 'R-tr-assign'),
     _m('chain-copy-also-when-nonblocking', VB1, "    source = targets[-1] if node.blocking else value\n", "    source = targets[-1]\n", 'R-tr-assign'),
-    _m('chain-targets-in-source-order', VB1, "    ) for target in reversed(targets) ]", "    ) for target in targets ]", 'R-tr-assign'),
+    _m('chain-first-statement-assigns-first-target', VB1, "      target = targets[-1], assignment_op = assignment_op, value = value\n    ) ]",
+       "      target = targets[0], assignment_op = assignment_op, value = value\n    ) ]", 'R-tr-assign'),
     _m('tmpvar-lookup-before-loopvar', T.GEN[2], "      if node.id in s.loop_var_env:\n        ret = bir.LoopVar( node.id )\n      elif node.id in s.tmp_var_env:\n        ret = bir.TmpVar( node.id, s._upblk_name )\n",
        "      if node.id in s.tmp_var_env:\n        ret = bir.TmpVar( node.id, s._upblk_name )\n      elif node.id in s.loop_var_env:\n        ret = bir.LoopVar( node.id )\n", 'R-tr-name-scope'),
     # shared rules on the Yosys classes
@@ -229,8 +230,9 @@ EQUIV = [
        "    for stmt in node.body:\n      body.extend( s.visit( stmt ) )\n",
        "    body = [ line for stmt in node.body for line in s.visit( stmt ) ]\n", count='first'),
     _m('assign-statements-as-append-loop', T.SV_B[1],
-       "    return [ tplt.format(\n      target = target, assignment_op = assignment_op, value = value\n    ) for target in reversed(targets) ]\n",
-       "    stmts = []\n    for target in reversed(targets):\n      stmts.append( tplt.format( target = target, assignment_op = assignment_op, value = value ) )\n    return stmts\n"),
+       "    stmts += [ tplt.format(\n      target = target, assignment_op = assignment_op, value = source\n    ) for target in reversed(targets[:-1]) ]\n",
+       "    for target in reversed(targets[:-1]):\n      stmts.append( tplt.format( target = target, assignment_op = assignment_op, value = source ) )\n"),
+    _m('chain-copies-in-source-order', T.SV_B[1], "    ) for target in reversed(targets[:-1]) ]", "    ) for target in targets[:-1] ]"),
     _m('wire-marker-forwarded-in-literal', YS4, '        dct = { "msb" : msb, "id_" : id_, "n_dim" : ifc_n_dim+n_dim }\n        if present:\n          dct["present"] = True\n',
        '        dct = { "msb" : msb, "id_" : id_, "n_dim" : ifc_n_dim+n_dim }\n        if "present" in _wire:\n          dct["present"] = True\n'),
     _m('wire-filter-disjuncts-reordered', YS4, 'if c_n_dim or n_dim or "present" in wire:', 'if "present" in wire or n_dim or c_n_dim:'),
